@@ -322,7 +322,7 @@ func (g *c11Gen) expr() string {
 func runC11(c *core.Ctx) {
 	r := c.R
 	o := gen.XMLOpts{MaxDepth: r.Range(2, 6), MaxFan: r.Range(2, 4), Names: []string{"a", "b", "c", "item"}, Namespaces: r.Chance(1, 2), Mixed: r.Bool(),
-		Noise: false, AttrProb: 6, TextValues: []string{"x", "y", "1", "2", "10", " x ", "a b"}}
+		Noise: r.Chance(1, 3), AttrProb: 6, TextValues: []string{"x", "y", "1", "2", "10", " x ", "a b"}} // comments and PIs are not represented in either tree; they split character data
 	root := gen.GenXML(r, o)
 	doc := gen.EncodeXML(r, root, false)
 	m, err := ref.BuildXMLMirror([]byte(doc))
